@@ -3,7 +3,9 @@
 From Coq Require Import Reals Lra List ZArith Bool.
 From Inferno Require Import Base.Num Base.NumR Gen.Interpolation Gen.Extrapolation C20.InterpProofs.
 Open Scope R_scope.
-Theorem roundtrip_nearest : forall s t p n dt : R,
-  0 < dt -> roundtrip (interp_nearest RN) (extrap_nearest RN) s t p n dt.
+Theorem roundtrip_nearest : forall (s t p n : T RN) (dt : R),
+  0 < dt ->
+  interp_nearest RN (fst (extrap_nearest RN s t p n dt)) (snd (extrap_nearest RN s t p n dt))
+    t dt = s.
 Proof. exact (@Inferno.C20.InterpProofs.roundtrip_nearest). Qed.
 Print Assumptions roundtrip_nearest.
